@@ -128,6 +128,21 @@ class ClassInfo:
                         if isinstance(sub, (ast.expr, ast.stmt)):
                             ast.copy_location(sub, n)
                     self.methods[getter.name] = getter
+        # enumerations: members are class-level names bound to constants; ("enum", class, member, value, kind) terms
+        self.enum_members = None
+        enum_bases = [ast.unparse(b) for b in node.bases]
+        kinds = {"Enum": "enum", "enum.Enum": "enum", "IntEnum": "int", "enum.IntEnum": "int", "Flag": "flag", "enum.Flag": "flag",
+                 "IntFlag": "flag", "enum.IntFlag": "flag", "StrEnum": "str", "enum.StrEnum": "str"}
+        kind = next((kinds[b] for b in enum_bases if b in kinds), None)
+        if kind is not None:
+            if any(b in ("str", "int") for b in enum_bases):
+                kind = "str" if "str" in enum_bases else "int"
+            self.enum_kind = kind
+            self.enum_members = {}
+            for n in node.body:
+                if isinstance(n, ast.Assign) and len(n.targets) == 1 and isinstance(n.targets[0], ast.Name) and \
+                        not n.targets[0].id.startswith("_"):
+                    self.enum_members[n.targets[0].id] = n.value
         # immutable record classes (typing.NamedTuple, frozen dataclasses without methods of their own that
         # matter to construction): constructing one is a tuple display with named components
         self.record_fields = None
@@ -645,6 +660,10 @@ _INV = {"==": "!=", "!=": "==", "<": ">=", ">=": "<", ">": "<=", "<=": ">", "is"
 _MIRROR = {"==": "==", "!=": "!=", "<": ">", ">": "<", "<=": ">=", ">=": "<=", "is": "is", "is not": "is not"}
 
 
+def _gate_leaves(t):
+    return _gate_leaves(t[2]) + _gate_leaves(t[3]) if isinstance(t, tuple) and t and t[0] == "gate" else [t]
+
+
 def cmp_term(op, a, b):
     """Canonical comparison: a constant operand goes to the right; for symmetric operators the operands
     are ordered, so `1 <= x` is `x >= 1` and `a == b` is `b == a`."""
@@ -653,6 +672,18 @@ def cmp_term(op, a, b):
         # comparing a truth value with True / False
         same = (op in ("is", "==")) == b[1]
         return a if same else negate_const(a)
+    if op in ("is", "is not", "==", "!=") and isinstance(a, tuple) and isinstance(b, tuple) and a and b:
+        if a[0] == "enum" and b[0] == "enum" and (op in ("is", "is not") or a[4] == "enum" or b[4] == "enum"):
+            same = a[1:3] == b[1:3]             # members are singletons
+            return ("const", same if op in ("is", "==") else not same)
+        for x, y in ((a, b), (b, a)):
+            if x[0] == "gate" and y[0] == "enum" and all(l[0] == "enum" for l in _gate_leaves(x)):
+                return gate(x[1], cmp_term(op, x[2], y), cmp_term(op, x[3], y))
+            if x[0] == "enum" and y[0] == "const" and op in ("==", "!=") and x[4] in ("str", "int", "flag") and x[3] is not None:
+                eq = x[3][1] == y[1]
+                return ("const", eq if op == "==" else not eq)
+            if x[0] == "enum" and y[0] == "const" and op in ("==", "!=") and x[4] == "enum" and y[1] is not None:
+                return ("const", op == "!=")        # a plain Enum member never equals a plain value
     if op in ("is", "is not") and b == ("const", None):
         isnone = _is_none(a)
         if isnone is not None:
@@ -670,7 +701,7 @@ def cmp_term(op, a, b):
     return ("cmp", op, a, b)
 
 
-_NEVER_NONE = ("tuple", "new", "comp", "flat", "op", "draw", "cmp", "fstr", "str", "partial", "closure", "lambda",
+_NEVER_NONE = ("tuple", "new", "comp", "flat", "op", "draw", "cmp", "fstr", "str", "partial", "closure", "lambda", "enum",
                "getter", "methodcaller")
 _VALUE_FUNCTIONS = {"exp", "log", "floor", "ceil", "sqrt", "abs", "len", "int", "float", "sum", "max", "min", "str", "bool",
                     "round", "range", "enumerate", "zip", "tuple", "sorted", "reversed", "mean", "pow", "iter", "repeat", "count"}
@@ -743,6 +774,12 @@ def negate_const(c):
 
 def const_truth(c):
     """True/False for a condition that is a constant, else None."""
+    if isinstance(c, tuple) and len(c) == 5 and c[0] == "enum":
+        if c[4] == "enum":
+            return True                 # members of a plain Enum are always true
+        if c[3] is not None and c[3][0] == "const":
+            return bool(c[3][1])
+        return None
     if isinstance(c, tuple) and len(c) == 2 and c[0] == "const" and (c[1] is None or isinstance(c[1], (bool, int, float, str))):
         return bool(c[1])
     return None
@@ -903,6 +940,8 @@ def memoised(fn):
 
 KNOWN_DECORATORS = {"property", "staticmethod", "classmethod", "abstractmethod", "abc.abstractmethod",
                     "abc.abstractproperty", "typing.overload", "overload", "typing.final", "final",
+                    "typing.override", "override", "typing_extensions.override", "typing_extensions.final",
+                    "typing.no_type_check", "no_type_check",
                     "contextmanager", "contextlib.contextmanager", "functools.wraps", "wraps",
                     "dataclass", "dataclasses.dataclass"} | set(MEMO_DECORATORS)
 
@@ -1348,6 +1387,7 @@ class Summariser:
         decos = [ast.unparse(d) for d in fn.decorator_list]
         self.is_static = "staticmethod" in decos
         self.is_classmethod = "classmethod" in decos
+        self.cm_cls = None         # the class `cls` names when a classmethod of another class has been inlined
         if cls is not None and not self.is_static and names:
             self.self_name = names[0]
             names = names[1:]
@@ -2679,6 +2719,15 @@ class Summariser:
                 return ("global", "builtins." + e.id)
             return ("global", "?" + e.id)
         if isinstance(e, ast.Attribute):
+            if isinstance(e.value, ast.Name) and e.value.id not in self.env:
+                K = None
+                if self.is_classmethod and e.value.id == self.self_name and (self.cm_cls or self.cls) is not None:
+                    K = self.cm_cls or self.cls
+                else:
+                    r = self.prog.resolve_name(self.module, e.value.id)
+                    K = r[1] if r and r[0] == "class" else None
+                if K is not None and K.enum_members is not None and e.attr in K.enum_members:
+                    return self.enum_member(K, e.attr)
             if self.is_self(e.value):
                 if self.cls is not None and not self.field_prefix:
                     desc = self.descriptor(e.attr)
@@ -2735,6 +2784,22 @@ class Summariser:
                 if v[1] or root is None or self.prog.find_method(root, e.attr)[1] is not None:
                     raise Unsupported(f"attribute of the owning object at {self.module.path}:{e.lineno} {ast.unparse(e)[:60]}")
                 return self.field(e.attr)
+            if v[0] == "enum" and e.attr in ("value", "_value_") and v[3] is not None:
+                return v[3]
+            if v[0] == "enum" and e.attr in ("name", "_name_"):
+                return ("const", v[2])
+            if v[0] == "enum":
+                K = self.prog.cls(v[1])
+                c, m = self.prog.find_method(K, e.attr)
+                if m is not None and any(ast.unparse(d) == "property" for d in m.decorator_list) and \
+                        self._can_inline_function(c.module, m):
+                    return self.inline_function(c.module, m, f"{c.qual}.{e.attr}", (v,), {}, events, e, level=0)
+            if v[0] == "gate" and all(l[0] == "enum" for l in _gate_leaves(v)) and e.attr in ("value", "name", "_value_", "_name_"):
+                pick = (lambda l: l[3]) if e.attr in ("value", "_value_") else (lambda l: ("const", l[2]))
+                if all(pick(l) is not None for l in _gate_leaves(v)):
+                    def rebuild(t):
+                        return gate(t[1], rebuild(t[2]), rebuild(t[3])) if t[0] == "gate" else pick(t)
+                    return rebuild(v)
             if _is_ns(v):
                 key = _ns_key(v) + e.attr
                 if key not in self.fields:
@@ -2793,6 +2858,20 @@ class Summariser:
             base, idx = self._expr(e.value, events), self._expr(e.slice, events)
             if base[0] == "tuple" and idx[0] == "const" and isinstance(idx[1], int) and 0 <= idx[1] < len(base[1]):
                 return base[1][idx[1]]
+            if isinstance(e.value, ast.Dict) and base[0] == "new" and base[2] == "dict" and base[3] and \
+                    all(i[0] == "kv" and i[1][0] in ("const", "enum") for i in base[3]):
+                # {K1: v1, K2: v2}[key]: a table written out where it is used -- the entry of the key
+                def pick(k):
+                    if k[0] == "gate":
+                        a, b = pick(k[2]), pick(k[3])
+                        return gate(k[1], a, b) if a is not None and b is not None else None
+                    if k[0] in ("const", "enum"):
+                        hits = [i[2] for i in base[3] if i[1] == k or (k[0] == "enum" and i[1][0] == "enum" and i[1][1:3] == k[1:3])]
+                        return hits[-1] if hits else None
+                    return None
+                got = pick(idx)
+                if got is not None:
+                    return got
             if base[0] == "dictrec":
                 if idx[0] == "const" and idx[1] in base[2]:
                     return self.field(f"{base[1]}.{idx[1]}")
@@ -3044,14 +3123,14 @@ class Summariser:
             return res
         # cls(...) inside a classmethod: an instance of the class
         if isinstance(f, ast.Name) and self.is_classmethod and f.id == self.self_name and f.id not in self.env \
-                and self.cls is not None:
-            return self._construct(self.cls, args, kwargs, events, e)
+                and (self.cm_cls or self.cls) is not None:
+            return self._construct(self.cm_cls or self.cls, args, kwargs, events, e)
         # cls.m(...) inside a classmethod
         if isinstance(f, ast.Attribute) and isinstance(f.value, ast.Name) and self.is_classmethod and \
-                f.value.id == self.self_name and f.value.id not in self.env and self.cls is not None:
-            c, m = self.prog.find_method(self.cls, f.attr)
+                f.value.id == self.self_name and f.value.id not in self.env and (self.cm_cls or self.cls) is not None:
+            c, m = self.prog.find_method(self.cm_cls or self.cls, f.attr)
             if m is not None and any(ast.unparse(d) in ("staticmethod", "classmethod") for d in m.decorator_list):
-                return self.inline(c, m, args, dict(kwargs), events, e)
+                return self.inline(c, m, args, dict(kwargs), events, e, cm_cls=self.cm_cls)
         # self(...)
         if self.is_self(f) and self.cls is not None:
             c, m = self.prog.find_method(self.cls, "__call__")
@@ -3173,9 +3252,11 @@ class Summariser:
             if rc and rc[0] == "class":
                 c, m = self.prog.find_method(rc[1], f.attr)
                 if m is not None and any(ast.unparse(d) in ("staticmethod", "classmethod") for d in m.decorator_list):
+                    if self.cls is not None and rc[1] not in self.prog.mro(self.cls):
+                        return self.inline(c, m, args, dict(kwargs), events, e, cm_cls=rc[1])
                     saved = self.cls
                     try:
-                        if self.cls is None or rc[1] not in self.prog.mro(self.cls):
+                        if self.cls is None:
                             self.cls = rc[1]
                         return self.inline(c, m, args, dict(kwargs), events, e)
                     finally:
@@ -3207,6 +3288,9 @@ class Summariser:
             if got is not None:
                 return got
             got = self._object_method(recv, f.attr, args, kwargs, events, e)
+            if got is not None:
+                return got
+            got = self.enum_method(recv, f.attr, args, kwargs, events, e)
             if got is not None:
                 return got
             if f.attr in SET_ALGEBRA and len(args) == 1 and not kwargs:
@@ -3255,6 +3339,8 @@ class Summariser:
 
     def _construct(self, cls, args, kwargs, events, e):
         """Instantiation of a package class; an immutable record class is a tuple display with named fields."""
+        if cls.enum_members is not None and len(args) == 1 and not kwargs:
+            return self.enum_lookup(cls, args[0], events, e)
         if cls.record_fields is not None and not any(isinstance(a, tuple) and a and a[0] == "star" for a in args) \
                 and not any(k is None for k, _ in kwargs):
             names = [n for n, _ in cls.record_fields]
@@ -3928,6 +4014,11 @@ class Summariser:
                 else:
                     out = attr_of(out, part)
             return out
+        if recv[0] == "methodcaller" and len(args) == 1 and not kwargs and args[0] == ("self",) and self.cls is not None and \
+                isinstance(recv[1], str):
+            c, m = self.prog.find_method(self.cls, recv[1])
+            if m is not None:
+                return self.inline(c, m, tuple(recv[2]), dict(recv[3]), events, e)      # methodcaller(name, ...)(self) is self.name(...)
         if recv[0] == "methodcaller" and len(args) == 1 and not kwargs:
             margs, mkw = recv[2], recv[3]
             res = ("res", self.site(e), "." + recv[1], (args[0],) + margs, mkw)
@@ -4155,6 +4246,83 @@ class Summariser:
             return cache[key]
         return None
 
+    def enum_member(self, K, name):
+        node = K.enum_members[name]
+        val = self._const_term(K.module, node)
+        if val is not None and val[0] == "tuple":
+            val = None
+        return ("enum", K.qual, name, val if (val is not None and val[0] == "const") else None, K.enum_kind)
+
+    def enum_lookup(self, K, arg, events, e):
+        """K(value): the member with that value; for a value that is not known, a selection over the members by
+        `value == member value`, ending in K._missing_(value) or, without one, in an exception."""
+        members = [self.enum_member(K, n) for n in K.enum_members]
+        if arg[0] == "enum" and arg[1] == K.qual:
+            return arg
+        if arg[0] == "gate":
+            return gate(arg[1], self.enum_lookup(K, arg[2], events, e), self.enum_lookup(K, arg[3], events, e))
+        if arg[0] == "const":
+            for m_ in members:
+                if m_[3] is not None and m_[3][1] == arg[1] and type(m_[3][1]) is type(arg[1]):
+                    return m_
+        if any(m_[3] is None for m_ in members):
+            raise Unsupported(f"enumeration {K.name} looked up by value at {self.module.path}:{e.lineno}: member values are not constants")
+        vals = [m_[3][1] for m_ in members]
+        if set(map(type, vals)) == {bool} and set(vals) == {True, False} and (arg[0] == "fn" and arg[1] == "bool" or _is_bool(arg)):
+            cond = arg[2][0] if arg[0] == "fn" else arg
+            return gate(cond, next(m_ for m_ in members if m_[3][1] is True), next(m_ for m_ in members if m_[3][1] is False))
+        c, miss = self.prog.find_method(K, "_missing_")
+        if arg[0] == "const":
+            if miss is None:
+                events.append(Raise(("new", self.site(e), "exc:ValueError", (arg,)), e.lineno))
+                return RAISES
+        if miss is not None:
+            tail = self.inline(c, miss, (arg,), {}, events, e, cm_cls=K)
+        else:
+            tail = ("undef",)           # ValueError: not a member
+        out = tail
+        for m_ in reversed(members):
+            out = gate(cmp_term("==", arg, m_[3]), m_, out)
+        return out
+
+    def enum_method(self, recv, meth, args, kwargs, events, e, depth=0):
+        """member.method(...) for an enumeration member (or a selection between members): the method is inlined with
+        self bound to the member, arm by arm."""
+        if depth > 4:
+            return None
+        if recv[0] == "enum":
+            K = self.prog.cls(recv[1])
+            c, m = self.prog.find_method(K, meth)
+            if m is None or any(ast.unparse(d) == "property" for d in m.decorator_list) or \
+                    not self._can_inline_function(c.module, m):
+                return None
+            decos = [ast.unparse(d) for d in m.decorator_list]
+            if "staticmethod" in decos:
+                return self.inline_function(c.module, m, f"{c.qual}.{meth}", tuple(args), dict(kwargs), events, e, level=0)
+            if "classmethod" in decos:
+                return self.inline(c, m, tuple(args), dict(kwargs), events, e, cm_cls=K)
+            return self.inline_function(c.module, m, f"{c.qual}.{meth}", (recv,) + tuple(args), dict(kwargs), events, e, level=0)
+        if recv[0] == "gate" and all(l[0] == "enum" for l in _gate_leaves(recv)):
+            cond = recv[1]
+            env0, f0 = dict(self.env), dict(self.fields)
+            ev_t, ev_e = [], []
+            self.facts.append(cond)
+            a = self.enum_method(recv[2], meth, args, kwargs, ev_t, e, depth + 1)
+            self.facts.pop()
+            f_t = self.fields
+            self.env, self.fields = dict(env0), dict(f0)
+            self.facts.append(negate(cond))
+            b = self.enum_method(recv[3], meth, args, kwargs, ev_e, e, depth + 1) if a is not None else None
+            self.facts.pop()
+            if a is None or b is None:
+                self.env, self.fields = env0, f0
+                return None
+            if ev_t or ev_e:
+                events.append(If(cond, ev_t, ev_e, e.lineno, False))
+            self.fields = self.merge(cond, f_t, self.fields, field=True)
+            return gate(cond, a, b)
+        return None
+
     def wrapper_of(self, c, m, level):
         """The callable a decorated definition is bound to after its `level` innermost user decorators have been
         applied: the decorator is run on a reference to the definition and must hand back a nested function
@@ -4183,7 +4351,7 @@ class Summariser:
             cache[key] = val
         return cache[key]
 
-    def inline(self, c, m, args, kwargs, events, node, level=None):
+    def inline(self, c, m, args, kwargs, events, node, level=None, cm_cls=None):
         if self.depth >= self.MAX_DEPTH:
             raise Unsupported(f"inlining bound reached at {self.module.path}:{node.lineno} {ast.unparse(node)[:60]}")
         if level is None:
@@ -4228,6 +4396,7 @@ class Summariser:
                          stack=self.stack + (f"{node.lineno}:{node.col_offset}",), loops=self.loops,
                          owner=c, fnstack=self.fnstack)
         sub.field_prefix = self.field_prefix
+        sub.cm_cls = cm_cls
         sub._owner_key = getattr(self, "_owner_key", None)
         sub.facts = list(self.facts)
         sub.base_facts = len(sub.facts)
